@@ -178,6 +178,8 @@ class Tr:
             if isinstance(op, (ast.Is, ast.IsNot)) and b[1] == "None":
                 if a[1] == "AssumeNotNone":
                     return "False" if isinstance(op, ast.Is) else "True"
+                if a[1].startswith("Option "):
+                    return "(%s %s none)" % (a[0], "=" if isinstance(op, ast.Is) else "≠")
                 raise BrokenTie("`is None` on %s" % a[1])
             sym = {ast.Eq: "=", ast.NotEq: "≠", ast.Lt: "<", ast.LtE: "≤", ast.Gt: ">", ast.GtE: "≥"}.get(type(op))
             if sym is None:
